@@ -28,7 +28,7 @@ PROPS: dict[str, dict] = {
     "C03": {"modules": ["vf.h_ctrl"], "harnesses": ["ctrl-C03"]},
     "C04": {"modules": ["vf.h_ctrl"], "harnesses": ["ctrl-C04"]},
     "C17": {"modules": ["vf.h_wire", "vf.h_comms", "vf.h_wire2"], "harnesses": ["shm-wire-smt", "frame-sequences", "wire-pickle-json"]},
-    "C08": {"modules": ["vf.h_shm"], "harnesses": ["shm-step"]},
+    "C08": {"modules": ["vf.h_shm"], "harnesses": ["shm-step", "shm-server-dispatch"]},
     "C09": {"modules": ["vf.h_shm"], "harnesses": ["shm-step-bytes", "shm-evict-liveness"]},
 }
 
